@@ -183,6 +183,12 @@ def cache_untouched(chk, repo, clause, modules=None):
         # no memoisation at all: nothing can be poisoned
         chk.ob(clause, 'E2-cache', 'package', 'no memoised function present', True, 'no lru_cache in package')
         return
+    # a memoised function is private to the package: what a public one returns is one object handed to every caller, and the
+    # callers are free to edit what they were given
+    public = sorted(k for k in cached if not k.split('.')[-1].startswith('_'))
+    chk.ob(clause, 'E2-cache', 'package', 'only private helpers are memoised', not public,
+           (', '.join(public) + ': every call with equal arguments returns the same array object - a caller that edits its result '
+            'changes what later calls return') if public else f'{len(cached)} memoised helper(s), all private', '')
     n = 0
     for f in repo.all_functions():
         if modules and f.module.name not in modules:
